@@ -174,6 +174,41 @@ def run(model: RepoModel, rep, tier: str):
             rep.violation("C20.R1", key, EP, ifs[0].lineno,
                           f"the test on `rule.{fld}` (`{norm(ifs[0].test)}`) no longer compares it with `{expect}`")
 
+    # identifiers are compared for equality: language names and numeric ids contain one another (`java` in `javascript`, `c` in every
+    # other name), so a containment test on them selects rules of other languages / units
+    for fld in ("lang", "unit_id", "method_id"):
+        for i in uf.get(fld, []) + mf.get(fld, []):
+            for cmp_ in ast.walk(i.test):
+                if isinstance(cmp_, ast.Compare) and len(cmp_.ops) == 1 and any(
+                        isinstance(x, ast.Attribute) and x.attr == fld and isinstance(x.value, ast.Name) for x in [cmp_.left, cmp_.comparators[0]]):
+                    key = f"{EP}::EntryPointRule.{fld}::compared by equality"
+                    other = cmp_.comparators[0] if (isinstance(cmp_.left, ast.Attribute) and cmp_.left.attr == fld) else cmp_.left
+                    if isinstance(other, ast.Constant) or (isinstance(other, ast.UnaryOp) and isinstance(other.operand, ast.Constant)):
+                        continue                         # `rule.unit_id >= 0`: availability test, not the comparison
+                    if isinstance(cmp_.ops[0], (ast.Eq, ast.NotEq)):
+                        rep.holds("C20.R1", key, EP, cmp_.lineno, f"`{norm(cmp_)}`")
+                    else:
+                        rep.violation("C20.R1", key, EP, cmp_.lineno,
+                                      f"`{norm(cmp_)}` is not an equality: for a rule restricted to `javascript` the test also accepts units of "
+                                      f"language `java` (and `c`), so methods no rule selects become starting points")
+    # the availability flags: `is_<field>_available` says whether <field> (that very field) was given in the rule
+    ca = next((f_ for f_ in rule_cls.methods.values() if any(isinstance(t, ast.Attribute) and t.attr.startswith("is_") and t.attr.endswith("_available")
+                                                             for a_ in walk_no_nested(f_.node) if isinstance(a_, ast.Assign) for t in a_.targets)), None)
+    if ca is None:
+        raise AnalysisError("EntryPointRule: the method that computes the is_<field>_available flags vanished")
+    for a_ in walk_no_nested(ca.node):
+        if isinstance(a_, ast.Assign) and len(a_.targets) == 1 and is_self_attr(a_.targets[0]) and a_.targets[0].attr.startswith("is_") \
+                and a_.targets[0].attr.endswith("_available"):
+            fld = a_.targets[0].attr[3:-len("_available")]
+            read = sorted({x.attr for x in ast.walk(a_.value) if is_self_attr(x)})
+            key = f"{EP}::EntryPointRule.is_{fld}_available::computed from `{fld}`"
+            if read == [fld]:
+                rep.holds("C20.R1", key, EP, a_.lineno, f"`{norm(a_.value)}`")
+            else:
+                rep.violation("C20.R1", key, EP, a_.lineno,
+                              f"`{norm(a_)}`: the flag that says whether a rule restricts by `{fld}` is computed from {read}: a rule that gives only "
+                              f"`{fld}` is treated as unrestricted (and one that gives `{read[0] if read else '?'}` is filtered by an empty `{fld}`)")
+
     # ------------------------------------------------------------------ R2
     cfg = cfg_of(meth_filter.node)
     adds = [n for n in cfg.g.nodes for c in cfg.calls_at(n) if isinstance(c.func, ast.Attribute) and c.func.attr == "add"
